@@ -41,6 +41,19 @@ TextSpan = Tuple[int, int]
 SpanDict = Dict[Tuple[Union[str, int], ...], TextSpan]
 
 
+class _NonFiniteFloatNames(ast.NodeTransformer):
+    """repr() of non-finite floats isn't a Python literal, allow them inside packed values"""
+    def visit_Name(self, node):
+        if node.id in ("inf", "nan"):
+            return ast.copy_location(ast.Constant(float(node.id)), node)
+        return node
+
+
+def _literal_eval(val_str: str):
+    parsed = ast.parse(val_str.lstrip(" \t"), mode="eval")
+    return ast.literal_eval(_NonFiniteFloatNames().visit(parsed))
+
+
 class SpannedString(str):
     spans: SpanDict = {}
 
@@ -127,7 +140,7 @@ class HumanMessageSerializer:
                 # Using an packer specific to this message
                 if packed:
                     if not evaled:
-                        var_val = ast.literal_eval(var_val)
+                        var_val = _literal_eval(var_val)
                     ser_key = (msg.name, cur_block.name, var_name)
                     serializer = se.SUBFIELD_SERIALIZERS.get(ser_key)
                     if not serializer:
